@@ -18,7 +18,7 @@ SPEC = dict(
                 "unreachable), lazySinkSource_interleaved_no_item_lost_init_once (LazySinkSource with BOTH halves under every interleaving of "
                 "sink-half calls and source-half polls, before/during/after initialisation: inner contract kept, no item lost, init at most once "
                 "whichever half starts it, the 'LazySinkHalf not ready' panic unreachable, nothing held back after a Ready poll, the source half "
-                "yields the stream in order), lazySource_yields_stream_in_order, sendIter_is_polite_client, sendStream_is_polite_client, "
+                "yields the stream in order), lazySource_yields_stream_in_order, lazySource_init_once, sendIter_is_polite_client, sendStream_is_polite_client, "
                 "lazyDemux_routes_in_order_partial (demux_map_lazy, new AND existing keys: one sink per key, each sink gets exactly the items of "
                 "its key in order once, nothing addressed to a key is dropped, and every sink's call sequence honours the contract from its "
                 "second call on; the full clause LazyDemuxContractStatement fails on the very first start_send of each freshly created sink = "
